@@ -382,8 +382,16 @@ func (q query) window(rows []ansRow) []ansRow {
 	return rows
 }
 
-// oracle: the canonical reference answer (rows of a cut timestamp printed as t:~).
+// oracle: the canonical reference answer (rows of a cut timestamp printed as t:~, the filled
+// cells of a statement of the fill-previous-multi shape as ?).
 func oracle(q query, d *dataset) answer {
+	if q.maskedFill() {
+		return applyMask(oracleRaw(q, d), fillMask(q, d))
+	}
+	return oracleRaw(q, d)
+}
+
+func oracleRaw(q query, d *dataset) answer {
 	var a answer
 	for _, g := range fullGroups(q, d) {
 		cut := q.cutTimes(g.rows)
@@ -408,8 +416,34 @@ func oracle(q query, d *dataset) answer {
 // share a timestamp are put into the model's order, rows of a cut timestamp are printed as t:~.
 // tiesMoved reports whether the order inside a timestamp had to be changed.
 func canonImpl(q query, d *dataset, a answer) (out answer, tiesMoved bool) {
-	if q.agg || a.err != "" {
+	if a.err != "" {
 		return a, false
+	}
+	if q.maskedFill() {
+		return applyMask(a, fillMask(q, d)), false
+	}
+	if q.agg {
+		if q.interval != 0 || len(q.calls) != 1 || (q.calls[0].f != "min" && q.calls[0].f != "max") {
+			return a, false
+		}
+		byGroup := map[string][]*drow{}
+		for _, r := range d.rows() {
+			if q.keepRow(r) {
+				g := groupOf(q.grp, r.s)
+				byGroup[g] = append(byGroup[g], r)
+			}
+		}
+		out = answer{flags: a.flags}
+		for _, g := range a.groups {
+			rows := append([]ansRow(nil), g.rows...)
+			if q.loneExtremeTie(byGroup[g.tag]) {
+				for i := range rows {
+					rows[i].t = "~"
+				}
+			}
+			out.groups = append(out.groups, ansGroup{tag: g.tag, rows: rows})
+		}
+		return out, false
 	}
 	full := map[string][]ansRow{}
 	for _, g := range fullGroups(q, d) {
@@ -567,10 +601,17 @@ func (q query) evalAgg(rows []*drow) []ansRow {
 		t := "E"
 		if lone {
 			t = strconv.Itoa(at)
+			if q.loneExtremeTie(rows) {
+				t = "~"
+			}
 		} else if q.hasLo {
 			t = strconv.Itoa(q.lo)
 		}
 		return []ansRow{{t: t, vals: vals}}
+	}
+	// a group none of whose calls has a value anywhere in range is not returned
+	if _, nulls, _ := eval(rows); allTrue(nulls) {
+		return nil
 	}
 	w := q.interval
 	var out []ansRow
@@ -649,4 +690,94 @@ func fillNumber(cl call, k int64) string {
 		return strconv.FormatInt(k, 10)
 	}
 	return "_"
+}
+
+func allTrue(bs []bool) bool {
+	for _, b := range bs {
+		if !b {
+			return false
+		}
+	}
+	return true
+}
+
+// loneExtremeTie: a statement with a single min / max call and no buckets reports the time of
+// the selected point; when the extreme value occurs at several times the language does not say
+// which one.
+func (q query) loneExtremeTie(rows []*drow) bool {
+	if !q.agg || q.interval != 0 || len(q.calls) != 1 || (q.calls[0].f != "min" && q.calls[0].f != "max") {
+		return false
+	}
+	ci := colIdx(q.calls[0].col)
+	var pts []point
+	for _, r := range rows {
+		if r.cs[ci].ok {
+			pts = append(pts, point{r.t, r.cs[ci].v})
+		}
+	}
+	if len(pts) == 0 {
+		return false
+	}
+	v, _, _ := applyCall(q.calls[0].f, q.calls[0].col, pts)
+	n := 0
+	for _, p := range pts {
+		if strconv.FormatInt(p.v, 10) == v {
+			n++
+		}
+	}
+	return n > 1
+}
+
+// maskedFill: fill(previous) with several calls or a group-by tag - the executor's
+// previous-value bookkeeping is a known finding (class fill-previous-multi); the cells that hold
+// a filled value are printed as ? on both sides, everything else is compared exactly.
+func (q query) maskedFill() bool {
+	return q.agg && q.interval > 0 && q.fill == "previous" && (len(q.calls) > 1 || q.grp != "-")
+}
+
+const fillSentinel = "-1099511627776"
+
+// fillMask evaluates the statement with fill(<sentinel>): mask[group][row][col] = the cell is a
+// filled one.
+func fillMask(q query, d *dataset) map[string][][]bool {
+	qm := q
+	qm.fill = fillSentinel
+	out := map[string][][]bool{}
+	sent := map[string]bool{}
+	for _, cl := range q.calls {
+		sent[fillNumber(cl, -1099511627776)] = true
+	}
+	for _, g := range fullGroups(qm, d) {
+		rows := qm.window(g.rows)
+		m := make([][]bool, len(rows))
+		for i, r := range rows {
+			m[i] = make([]bool, len(r.vals))
+			for j, v := range r.vals {
+				m[i][j] = sent[v]
+			}
+		}
+		out[g.tag] = m
+	}
+	return out
+}
+
+func applyMask(a answer, mask map[string][][]bool) answer {
+	out := answer{flags: a.flags, err: a.err}
+	for _, g := range a.groups {
+		m := mask[g.tag]
+		ng := ansGroup{tag: g.tag}
+		for i, r := range g.rows {
+			nr := ansRow{t: r.t, vals: append([]string(nil), r.vals...)}
+			if i < len(m) {
+				for j := range nr.vals {
+					if j < len(m[i]) && m[i][j] {
+						nr.vals[j] = "?"
+					}
+				}
+			}
+			ng.rows = append(ng.rows, nr)
+		}
+		out.groups = append(out.groups, ng)
+	}
+	return out
 }
